@@ -503,7 +503,7 @@ func largeTotals(L int, thorough bool) []largeTotal {
 		frac(5, 4)
 		return out
 	}
-	for k := 4; k <= 64; k += 2 {
+	for k := 16; k <= 64; k += 2 {
 		frac(k, 64)
 	}
 	for pm := 700; pm <= 1000; pm += 20 {
@@ -546,7 +546,7 @@ func largeBoundsOf(L int, thorough bool) largeBounds {
 		b.kinds = []string{"dummyda"}
 		return b
 	}
-	b.shapes = []largeShape{{Parts: 1}, {Parts: 2}, {Parts: 3}, {Parts: 4}, {Parts: 8}, {Parts: 64}, {BlobSize: 1024}, {BlobSize: 128}, {BlobSize: 16}}
+	b.shapes = []largeShape{{Parts: 1}, {Parts: 2}, {Parts: 4}, {Parts: 8}, {Parts: 64}, {BlobSize: 1024}, {BlobSize: 128}, {BlobSize: 16}}
 	b.tailsOn = b.shapes
 	b.crowd = []int{1, 2, 3}
 	b.crowdT = []largeTotal{half, full}
@@ -587,8 +587,8 @@ func largeCases(L int, thorough bool) (cases []largeCase, b largeBounds) {
 			for _, s := range b.shapes {
 				for _, method := range []string{"submit-helpers", "da-submit"} {
 					for _, tail := range b.tails {
-						if tail != "none" && !tailed(s) {
-							continue
+						if tail != "none" && (!tailed(s) || kind != b.kinds[0]) {
+							continue // the second backing (the double) only gets the plain lists
 						}
 						if method == "da-submit" && tail != "none" && tail != "oversize-last" && !(thorough && tail == "blob-of-L") {
 							continue // DA.Submit sends everything: the list shapes matter, not where the client would cut
@@ -745,7 +745,7 @@ func largePart(r *vf.Run, workers int, deadline time.Duration) (out largeResult)
 	out.Bounds = map[string]any{
 		"limit_L(client default MaxBlobSize = backing limit)": L, "totals": names(b.totals), "shapes": shapes(b.shapes), "tails": b.tails,
 		"shapes_with_tails": shapes(b.tailsOn), "methods": []string{"types.SubmitWithHelpers", "DA.Submit (tails none, oversize-last; thorough also blob-of-L)"},
-		"earlier_full_batches_at_the_same_height": b.crowd, "crowded_totals": names(b.crowdT), "crowded_shapes": shapes(b.crowdS), "backings": b.kinds,
+		"earlier_full_batches_at_the_same_height": b.crowd, "crowded_totals": names(b.crowdT), "crowded_shapes": shapes(b.crowdS), "backings": b.kinds, "backings_after_the_first": "tail none only",
 		"cases": len(cases), "elapsed_s": time.Since(started).Seconds(),
 	}
 	return out
